@@ -22,40 +22,55 @@ theorem pass_faithful_spelled (s : St) (h : faithful s = true) :
     -- `call_value_iff_accepted` (⇐): a call whose payload was handed over does not report done …
     (s.transferred = true → (getP s 0).outcome ≠ 2)
     -- … and an accept that was handed a payload does not report done (the payload is not dropped)
-    ∧ ((getP s 1).payload ≠ 0 → (getP s 1).outcome ≠ 2) := by
+    ∧ ((getP s 1).payload ≠ 0 → (getP s 1).outcome ≠ 2)
+    -- (the same for a second acceptor, where a configuration has one)
+    ∧ ((getP s 2).payload ≠ 0 → (getP s 2).outcome ≠ 2) := by
   unfold faithful at h
   simp only [Bool.and_eq_true, Bool.not_eq_true', Bool.and_eq_false_iff, beq_eq_false_iff_ne,
     bne_eq_false_iff_eq, ne_eq] at h
-  refine ⟨fun ht => ?_, fun hp => ?_⟩
-  · rcases h.1 with h1 | h1
+  refine ⟨fun ht => ?_, fun hp => ?_, fun hp => ?_⟩
+  · rcases h.1.1 with h1 | h1
     · rw [ht] at h1; cases h1
     · exact h1
+  · rcases h.1.2 with h2 | h2
+    · exact absurd h2 hp
+    · exact h2
   · rcases h.2 with h2 | h2
     · exact absurd h2 hp
     · exact h2
 
+/-- What `slotOk` says, spelled out. -/
+theorem pass_slot_spelled (s : St) (h : slotOk s = true) :
+    -- a party is marked parked (stored itself, neither claimed nor un-claimed since) exactly when it IS
+    -- the content of the word: nobody is wiped out of the slot, nobody is in it without having parked
+    (∀ k, k < s.ps.length → ((getP s k).parked = true ↔ s.word = k + 1))
+    ∧ s.word ≤ s.ps.length := by
+  unfold slotOk at h
+  simp only [Bool.and_eq_true, List.all_eq_true, List.mem_range, decide_eq_true_eq, beq_iff_eq] at h
+  refine ⟨fun k hk => ?_, h.2⟩
+  have := h.1 k hk
+  constructor
+  · intro hp; rw [hp] at this; exact of_decide_eq_true this.symm
+  · intro hw; rw [this]; exact decide_eq_true hw
+
 /-- What `safe` says, spelled out. -/
 theorem pass_safe_spelled (cfg : Config) (s : St) (h : safe cfg s = true) :
-    -- no double completion, no accept value without payload, no done without a stop request, the
-    -- caller's payload handed over at most once (`pass_payload_to_exactly_one`)
     s.bad = 0
-    -- no deadlock (`cancel_leaves_other_waiting`: the party left behind can still be claimed)
     ∧ (((sys cfg).next s).isEmpty = true → final cfg s = true)
-    -- at the end every present party completed exactly once
     ∧ (final cfg s = true →
         (cfg.present.getD 0 false = true → (getP s 0).count = 1) ∧
-        (cfg.present.getD 1 false = true → (getP s 1).count = 1))
-    -- `call_value_iff_accepted` (⇒): value only if the payload was handed over (for ⇐ see `faithful`)
+        (cfg.present.getD 1 false = true →
+          (getP s 1).count = 1 ∨ (cfg.gatedAcceptor = true ∧ s.transferred = false)))
     ∧ ((getP s 0).outcome = 1 → s.transferred = true)
     ∧ ((getP s 1).outcome = 1 → (getP s 1).got ≠ 0 ∧ ((getP s 1).got = 1 → s.transferred = true))
-    -- a cancelled call's arguments are untouched; a cancelled accept received nothing
     ∧ ((getP s 0).cancelled = true → s.transferred = false)
-    ∧ ((getP s 1).cancelled = true → (getP s 1).payload = 0) := by
+    ∧ ((getP s 1).cancelled = true → (getP s 1).payload = 0)
+    ∧ slotOk s = true := by
   unfold safe at h
   simp only [Bool.and_eq_true, Bool.or_eq_true, decide_eq_true_eq, Bool.not_eq_true', beq_iff_eq,
     bne_iff_ne, ne_eq, Bool.not_eq_eq_eq_not, Bool.not_true] at h
-  obtain ⟨⟨⟨⟨⟨⟨h1, h2⟩, h3⟩, h4⟩, h5⟩, h6⟩, h7⟩ := h
-  refine ⟨h1, ?_, ?_, ?_, ?_, ?_, ?_⟩
+  obtain ⟨⟨⟨⟨⟨⟨⟨⟨h1, h2⟩, h3⟩, h4⟩, h5⟩, h6⟩, h7⟩, _⟩, h9⟩ := h
+  refine ⟨h1, ?_, ?_, ?_, ?_, ?_, ?_, h9⟩
   · intro hd
     rcases h2 with h2 | h2
     · rw [hd] at h2; cases h2
@@ -64,12 +79,13 @@ theorem pass_safe_spelled (cfg : Config) (s : St) (h : safe cfg s = true) :
     rcases h3 with h3 | h3
     · rw [hf] at h3; cases h3
     · refine ⟨fun hp => ?_, fun hp => ?_⟩
-      · rcases h3.1 with h | h
+      · rcases h3.1.1 with h | h
         · rw [hp] at h; cases h
         · exact h
-      · rcases h3.2 with h | h
+      · rcases h3.1.2 with (h | h) | h
         · rw [hp] at h; cases h
-        · exact h
+        · exact Or.inl h
+        · exact Or.inr h
   · intro ho
     rcases h4 with h | h
     · exact absurd ho h
@@ -89,12 +105,11 @@ theorem pass_safe_spelled (cfg : Config) (s : St) (h : safe cfg s = true) :
     rcases h7 with h | h
     · rw [hc] at h; cases h
     · exact h
-
 /-- one call meets one accept, no stop tokens: `safe` and `faithful` (here the full
     `call_value_iff_accepted` / `pass_payload_to_exactly_one`) in every reachable state. -/
 theorem pass_rendezvous_safe_inst :
     ∀ s, Reach (sys cfgRendezvous) s → (safe cfgRendezvous s && faithful s) = true :=
-  safe_of_checkC _ { coded with M := 67, W := 192 } 400 _ (by decide +kernel)
+  safe_of_checkC _ { coded with M := 83, W := 192 } 400 _ (by decide +kernel)
 
 /-- try_call racing with the start of an accept (`try_succeeds_iff_counterpart_waiting`: the try
     claims exactly when the word holds the acceptor; T0's later try must succeed). -/
